@@ -5,6 +5,7 @@ import CoxeterVerif.Lemmas.Heap
 -/
 namespace C16
 open Scalar
+set_option linter.unusedSectionVars false
 
 /-! ## rows -/
 section rows
@@ -150,66 +151,283 @@ theorem observe_allocNormal (s : St α) (a : Arr α) (hw : Spec.WF s) :
     show ((s.alloc a).setNormal s.next).fNormal = s.next from rfl, h1, h3, h4, h5, St.get_alloc_self]
   rfl
 
+/-- the cache refreshes of the centroid setters, one at a time -/
+def refreshEqs (M : Meas α) (t : St α) : St α := (t.alloc (M.eqs (t.get t.fVerts))).setEqs t.next
+def refreshSeqs (M : Meas α) (t : St α) : St α := (t.alloc (M.seqs (t.get t.fVerts))).setSeqs t.next
+def refreshCen (M : Meas α) (t : St α) : St α :=
+  (t.alloc (v3l (M.cenV t.volume (t.get t.fVerts)))).setCen t.next
+def refreshVol (M : Meas α) (t : St α) : St α := t.setVolume (M.vol (t.get t.fVerts))
+
+theorem refreshEqs_spec (M : Meas α) (t : St α) (hw : Spec.WF t) :
+    Spec.WF (refreshEqs M t) ∧ observe (refreshEqs M t) = { observe t with eqs := M.eqs (t.get t.fVerts) } ∧
+    (refreshEqs M t).get (refreshEqs M t).fVerts = t.get t.fVerts ∧ (refreshEqs M t).volume = t.volume :=
+  ⟨WF.of_frame hw (Frame.allocEqs _ _), observe_allocEqs _ _ hw, St.get_alloc_of_lt _ _ _ hw.verts, rfl⟩
+theorem refreshSeqs_spec (M : Meas α) (t : St α) (hw : Spec.WF t) :
+    Spec.WF (refreshSeqs M t) ∧ observe (refreshSeqs M t) = { observe t with seqs := M.seqs (t.get t.fVerts) } ∧
+    (refreshSeqs M t).get (refreshSeqs M t).fVerts = t.get t.fVerts ∧ (refreshSeqs M t).volume = t.volume :=
+  ⟨WF.of_frame hw (Frame.allocSeqs _ _), observe_allocSeqs _ _ hw, St.get_alloc_of_lt _ _ _ hw.verts, rfl⟩
+theorem refreshCen_spec (M : Meas α) (t : St α) (hw : Spec.WF t) :
+    Spec.WF (refreshCen M t) ∧
+    observe (refreshCen M t) = { observe t with cen := v3l (M.cenV t.volume (t.get t.fVerts)) } ∧
+    (refreshCen M t).get (refreshCen M t).fVerts = t.get t.fVerts ∧ (refreshCen M t).volume = t.volume :=
+  ⟨WF.of_frame hw (Frame.allocCen _ _), observe_allocCen _ _ hw, St.get_alloc_of_lt _ _ _ hw.verts, rfl⟩
+theorem refreshVol_spec (M : Meas α) (t : St α) :
+    observe (refreshVol M t) = { observe t with volume := M.vol (t.get t.fVerts) } := rfl
+
 /-- **the centroid setter on the heap computes `Spec.moved` on the observables** -/
 theorem observe_setCentroid (M : Meas α) (s : St α) (v : V3 α) (hw : Spec.WF s) :
     observe (setCentroid M s v) = Spec.moved M s.cls (observe s) v := by
   have hc := centroidOf_observe M s
-  unfold setCentroid Spec.moved
+  have hw1 := WF.writeVerts hw (shiftRows (v - pubCentroid M s) (s.get s.fVerts))
+  have h1 := observe_writeVerts s (shiftRows (v - pubCentroid M s) (s.get s.fVerts)) hw
+  have g1 : (s.write s.fVerts (shiftRows (v - pubCentroid M s) (s.get s.fVerts))).get
+      (s.write s.fVerts (shiftRows (v - pubCentroid M s) (s.get s.fVerts))).fVerts =
+      shiftRows (v - pubCentroid M s) (s.get s.fVerts) := St.get_write_self _ _ _
+  unfold Spec.moved
   cases hk : s.cls.kind with
-  | curved => simp only []; rw [observe_allocCen s _ hw]
-  | planar => simp only []; rw [observe_writeVerts s _ hw, hc]; rfl
+  | curved =>
+    have e : setCentroid M s v = (s.alloc (v3l v)).setCen s.next := by unfold setCentroid; rw [hk]
+    rw [e, observe_allocCen s _ hw]
+  | planar =>
+    have e : setCentroid M s v = s.write s.fVerts (shiftRows (v - pubCentroid M s) (s.get s.fVerts)) := by
+      unfold setCentroid; rw [hk]
+    rw [e, h1, hc]; rfl
   | poly =>
-    simp only []
-    have hw1 := WF.writeVerts hw (shiftRows (v - pubCentroid M s) (s.get s.fVerts))
-    rw [observe_allocEqs _ _ hw1, observe_writeVerts s _ hw, hc]
-    show _ = Obs.mk _ _ _ _ _ _ _
-    simp only [St.get_write_self, show (s.write s.fVerts (shiftRows (v - pubCentroid M s) (s.get s.fVerts))).fVerts
-      = s.fVerts from rfl]
-    rfl
+    have e : setCentroid M s v = refreshEqs M (s.write s.fVerts (shiftRows (v - pubCentroid M s) (s.get s.fVerts))) := by
+      unfold setCentroid; rw [hk]; rfl
+    obtain ⟨_, e2, _, _⟩ := refreshEqs_spec M _ hw1
+    rw [e, e2, g1, h1, hc]; rfl
   | convex =>
-    simp only []
-    have hw1 := WF.writeVerts hw (shiftRows (v - pubCentroid M s) (s.get s.fVerts))
-    have hw2 := WF.of_frame hw1 (Frame.allocEqs _ (M.eqs ((s.write s.fVerts (shiftRows (v - pubCentroid M s)
-      (s.get s.fVerts))).get (s.write s.fVerts (shiftRows (v - pubCentroid M s) (s.get s.fVerts))).fVerts)))
-    have hw3 := WF.of_frame hw2 (Frame.allocSeqs _ (M.seqs ((((s.write s.fVerts (shiftRows (v - pubCentroid M s)
-      (s.get s.fVerts))).alloc (M.eqs ((s.write s.fVerts (shiftRows (v - pubCentroid M s)
-      (s.get s.fVerts))).get (s.write s.fVerts (shiftRows (v - pubCentroid M s) (s.get s.fVerts))).fVerts))).setEqs
-      (s.write s.fVerts (shiftRows (v - pubCentroid M s) (s.get s.fVerts))).next).get
-      (((s.write s.fVerts (shiftRows (v - pubCentroid M s)
-      (s.get s.fVerts))).alloc (M.eqs ((s.write s.fVerts (shiftRows (v - pubCentroid M s)
-      (s.get s.fVerts))).get (s.write s.fVerts (shiftRows (v - pubCentroid M s) (s.get s.fVerts))).fVerts))).setEqs
-      (s.write s.fVerts (shiftRows (v - pubCentroid M s) (s.get s.fVerts))).next).fVerts)))
-    have g1 : ∀ t : St α, Spec.WF t → ∀ a, ((t.alloc a).setEqs t.next).get ((t.alloc a).setEqs t.next).fVerts
-        = t.get t.fVerts := fun t ht a => St.get_alloc_of_lt _ _ _ ht.verts
-    have g2 : ∀ t : St α, Spec.WF t → ∀ a, ((t.alloc a).setSeqs t.next).get ((t.alloc a).setSeqs t.next).fVerts
-        = t.get t.fVerts := fun t ht a => St.get_alloc_of_lt _ _ _ ht.verts
-    have g3 : ∀ t : St α, Spec.WF t → ∀ a, ((t.alloc a).setCen t.next).get ((t.alloc a).setCen t.next).fVerts
-        = t.get t.fVerts := fun t ht a => St.get_alloc_of_lt _ _ _ ht.verts
-    show observe (St.setVolume _ _) = _
-    unfold St.setVolume
-    show Obs.mk _ _ _ _ _ _ _ = Obs.mk _ _ _ _ _ _ _
-    have e := observe_allocCen _ (v3l (M.cenV (((((s.write s.fVerts (shiftRows (v - pubCentroid M s)
-      (s.get s.fVerts))).alloc (M.eqs ((s.write s.fVerts (shiftRows (v - pubCentroid M s)
-      (s.get s.fVerts))).get (s.write s.fVerts (shiftRows (v - pubCentroid M s) (s.get s.fVerts))).fVerts))).setEqs
-      (s.write s.fVerts (shiftRows (v - pubCentroid M s) (s.get s.fVerts))).next).alloc _).setSeqs _).volume
-      (((((s.write s.fVerts (shiftRows (v - pubCentroid M s)
-      (s.get s.fVerts))).alloc (M.eqs ((s.write s.fVerts (shiftRows (v - pubCentroid M s)
-      (s.get s.fVerts))).get (s.write s.fVerts (shiftRows (v - pubCentroid M s) (s.get s.fVerts))).fVerts))).setEqs
-      (s.write s.fVerts (shiftRows (v - pubCentroid M s) (s.get s.fVerts))).next).alloc _).setSeqs _).get _))) hw3
-    rw [observe_allocSeqs _ _ hw2, observe_allocEqs _ _ hw1, observe_writeVerts s _ hw] at e
-    unfold observe at e
-    simp only [Obs.mk.injEq] at e
-    obtain ⟨e1, e2, e3, e4, e5, e6, e7⟩ := e
-    simp only [Obs.mk.injEq]
-    rw [g2 _ hw2, g1 _ hw1, St.get_write_self] at e3 e5
-    rw [hc]
-    refine ⟨?_, e2, ?_, ?_, ?_, ?_, e7⟩
-    · rw [e1]
-    · rw [e3]; rfl
-    · rw [e4, St.get_write_self]; rfl
-    · rw [e5]
-    · rw [g3 _ hw3, g2 _ hw2, g1 _ hw1, St.get_write_self]
+    have e : setCentroid M s v = refreshVol M (refreshCen M (refreshSeqs M (refreshEqs M
+        (s.write s.fVerts (shiftRows (v - pubCentroid M s) (s.get s.fVerts)))))) := by
+      unfold setCentroid; rw [hk]; rfl
+    obtain ⟨w2, e2, v2, u2⟩ := refreshEqs_spec M _ hw1
+    obtain ⟨w3, e3, v3, u3⟩ := refreshSeqs_spec M _ w2
+    obtain ⟨w4, e4, v4, u4⟩ := refreshCen_spec M _ w3
+    rw [e, refreshVol_spec, e4, e3, e2, v4, v3, v2, u3, u2, g1, h1, hc]
+    rfl
 
 end obs
+
+/-! ## `Polygon.inertia_tensor`, `Polyhedron.inertia_tensor` -/
+section inertia
+variable {α : Type} [Scalar α]
+
+theorem observe_allocVerts (s : St α) (a : Arr α) (hw : Spec.WF s) :
+    observe ((s.alloc a).setVerts s.next) = { observe s with verts := a } := by
+  have h := observe_alloc s a hw
+  unfold observe at h ⊢
+  simp only [Obs.mk.injEq] at h
+  obtain ⟨h1, h2, h3, h4, h5, h6, h7⟩ := h
+  show Obs.mk _ _ _ _ _ _ _ = Obs.mk _ _ _ _ _ _ _
+  simp only [St.get_setVerts] at *
+  rw [show ((s.alloc a).setVerts s.next).fNormal = (s.alloc a).fNormal from rfl,
+    show ((s.alloc a).setVerts s.next).fCen = (s.alloc a).fCen from rfl,
+    show ((s.alloc a).setVerts s.next).fSeqs = (s.alloc a).fSeqs from rfl,
+    show ((s.alloc a).setVerts s.next).fEqs = (s.alloc a).fEqs from rfl,
+    show ((s.alloc a).setVerts s.next).fVerts = s.next from rfl, h2, h3, h4, h5, St.get_alloc_self]
+  rfl
+
+theorem WF.allocVerts {s : St α} (hw : Spec.WF s) (a : Arr α) : Spec.WF ((s.alloc a).setVerts s.next) := by
+  have lt : ∀ i, i < s.next → i < s.next + 1 ∧ i ≠ s.next := fun i hi => ⟨by omega, by omega⟩
+  exact
+    { verts := Nat.lt_succ_self _
+      normal := lt _ hw.normal.1, cen := lt _ hw.cen.1, eqs := lt _ hw.eqs.1, seqs := lt _ hw.seqs.1
+      areas := fun i hi => lt _ (hw.areas i hi).1
+      faceCen := fun i hi => lt _ (hw.faceCen i hi).1
+      edges := fun i hi => lt _ (hw.edges i hi).1
+      handed := fun i hi => (lt _ (hw.handed i hi)).1
+      args := fun i hi => (lt _ (hw.args i hi)).1 }
+
+/-- the state in which `Polygon.inertia_tensor` evaluates `polar_moment_inertia` and `area` -/
+def polygonInertiaMid (M : Meas α) (s : St α) : St α :=
+  ((((polygonInertiaHead M s).alloc (M.rot ((polygonInertiaHead M s).get (polygonInertiaHead M s).fNormal)
+    ((polygonInertiaHead M s).get (polygonInertiaHead M s).fVerts))).setVerts (polygonInertiaHead M s).next).alloc
+      [lit 0, lit 0, lit 1]).setNormal ((polygonInertiaHead M s).next + 1)
+
+theorem polygonInertia_result (M : Meas α) (s : St α) (hw : Spec.WF s) :
+    (polygonInertia M s).1.get (polygonInertia M s).2 =
+      M.tensor2 (pubCentroid M s) (observe (polygonInertiaMid M s))
+        ((polygonInertiaHead M s).get (polygonInertiaHead M s).fNormal) := by
+  have h : (polygonInertia M s).2 ≠ s.fVerts := by
+    rw [polygonInertia_ret]
+    have := (polygonInertiaHead_frame M s).next_le
+    have := hw.verts
+    omega
+  have e : (polygonInertia M s).1.get (polygonInertia M s).2 =
+      ((polygonInertiaMid M s).alloc (M.tensor2 (pubCentroid M s) (observe (polygonInertiaMid M s))
+        ((polygonInertiaHead M s).get (polygonInertiaHead M s).fNormal))).get (polygonInertiaMid M s).next := by
+    show (St.write _ s.fVerts _).get _ = _
+    rw [St.get_write_of_ne _ _ _ _ h]
+    rfl
+  rw [e, St.get_alloc_self]
+
+/-- for a planar class: the head is the in-place translation of the vertex array -/
+theorem polygonInertiaHead_planar (M : Meas α) (s : St α) (hk : s.cls.kind = .planar) :
+    polygonInertiaHead M s =
+      ((s.alloc (s.get s.fVerts)).alloc ((s.alloc (s.get s.fVerts)).get s.fNormal)).write s.fVerts
+        (shiftRows (V3.zero - pubCentroid M ((s.alloc (s.get s.fVerts)).alloc ((s.alloc (s.get s.fVerts)).get s.fNormal)))
+          (((s.alloc (s.get s.fVerts)).alloc ((s.alloc (s.get s.fVerts)).get s.fNormal)).get s.fVerts)) := by
+  unfold polygonInertiaHead setCentroid
+  rw [show ((s.alloc (s.get s.fVerts)).alloc ((s.alloc (s.get s.fVerts)).get s.fNormal)).cls = s.cls from rfl, hk]
+  rfl
+
+/-- **`Polygon.inertia_tensor` leaves the observables exactly as they were** (no hypothesis on the
+external functions: the vertex array is restored from the saved copy, the normal is a copy) -/
+theorem observe_polygonInertia (M : Meas α) (s : St α) (hw : Spec.WF s) (hk : s.cls.kind = .planar) :
+    observe (polygonInertia M s).1 = observe s := by
+  have hf := polygonInertia_frame M s
+  have hh := polygonInertiaHead_frame M s
+  have hp := polygonInertiaHead_planar M s hk
+  have n2 : (polygonInertiaHead M s).next = s.next + 2 := by rw [hp]; rfl
+  have a1 : (polygonInertiaHead M s).get s.next = s.get s.fVerts := by
+    rw [hp, St.get_write_of_ne _ _ _ _ (Nat.ne_of_gt hw.verts),
+      St.get_alloc_of_lt _ _ _ (by simp), St.get_alloc_self]
+  have a2 : (polygonInertiaHead M s).get (s.next + 1) = s.get s.fNormal := by
+    rw [hp, St.get_write_of_ne _ _ _ _ (by have := hw.verts; omega)]
+    show ((s.alloc (s.get s.fVerts)).alloc _).get (s.alloc (s.get s.fVerts)).next = _
+    rw [St.get_alloc_self, St.get_alloc_of_lt _ _ _ hw.normal.1]
+  have gv : (polygonInertia M s).1.get s.fVerts = s.get s.fVerts := by
+    have e : (polygonInertia M s).1.get s.fVerts =
+        ((polygonInertiaMid M s).alloc (M.tensor2 (pubCentroid M s) (observe (polygonInertiaMid M s))
+          ((polygonInertiaHead M s).get (polygonInertiaHead M s).fNormal))).get s.next := by
+      show (St.write _ s.fVerts _).get s.fVerts = _
+      rw [St.get_write_self]
+      rfl
+    have m2 : (polygonInertiaMid M s).next = (polygonInertiaHead M s).next + 2 := rfl
+    rw [e, St.get_alloc_of_lt _ _ _ (by omega)]
+    unfold polygonInertiaMid
+    rw [St.get_setNormal, St.get_alloc_of_lt _ _ _ (by simp only [St.next_alloc, St.next_setVerts]; omega),
+      St.get_setVerts, St.get_alloc_of_lt _ _ _ (by omega), a1]
+  have gn : (polygonInertia M s).1.get (s.next + 1) = s.get s.fNormal := by
+    rw [polygonInertia_get M s _ (by omega) (by have := hw.verts; omega), a2]
+  have keep : ∀ i, i < s.next → i ≠ s.fVerts → (polygonInertia M s).1.get i = s.get i := hf.get_eq
+  have fc : (polygonInertia M s).1.fCen = s.fCen := by
+    show (polygonInertiaHead M s).fCen = _; rw [hp]; rfl
+  have fe : (polygonInertia M s).1.fEqs = s.fEqs := by
+    show (polygonInertiaHead M s).fEqs = _; rw [hp]; rfl
+  have fs : (polygonInertia M s).1.fSeqs = s.fSeqs := by
+    show (polygonInertiaHead M s).fSeqs = _; rw [hp]; rfl
+  have fv : (polygonInertia M s).1.volume = s.volume := by
+    show (polygonInertiaHead M s).volume = _; rw [hp]; rfl
+  have fk : (polygonInertia M s).1.consts = s.consts := hf.consts
+  unfold observe
+  rw [polygonInertia_fVerts, polygonInertia_fNormal, fc, fe, fs, fv, fk, gv, gn,
+    keep _ hw.cen.1 hw.cen.2, keep _ hw.eqs.1 hw.eqs.2, keep _ hw.seqs.1 hw.seqs.2]
+
+theorem WF.alloc {s : St α} (hw : Spec.WF s) (a : Arr α) : Spec.WF (s.alloc a) :=
+  WF.of_frame hw (Frame.alloc s a)
+
+theorem observe_polygonInertiaHead (M : Meas α) (s : St α) (hw : Spec.WF s) :
+    Spec.WF (polygonInertiaHead M s) ∧
+    observe (polygonInertiaHead M s) = Spec.moved M s.cls (observe s) V3.zero := by
+  have w1 := WF.alloc hw (s.get s.fVerts)
+  have w2 := WF.alloc w1 ((s.alloc (s.get s.fVerts)).get s.fNormal)
+  refine ⟨WF.of_frame hw (polygonInertiaHead_frame M s), ?_⟩
+  unfold polygonInertiaHead
+  rw [observe_setCentroid M _ _ w2, observe_alloc _ _ w1, observe_alloc _ _ hw]
+  rfl
+
+theorem observe_polygonInertiaMid (M : Meas α) (s : St α) (hw : Spec.WF s) :
+    observe (polygonInertiaMid M s) =
+      { Spec.moved M s.cls (observe s) V3.zero with
+          verts := M.rot (Spec.moved M s.cls (observe s) V3.zero).normal (Spec.moved M s.cls (observe s) V3.zero).verts,
+          normal := [lit 0, lit 0, lit 1] } := by
+  obtain ⟨wh, oh⟩ := observe_polygonInertiaHead M s hw
+  have w4 := WF.allocVerts wh (M.rot ((polygonInertiaHead M s).get (polygonInertiaHead M s).fNormal)
+    ((polygonInertiaHead M s).get (polygonInertiaHead M s).fVerts))
+  have e := observe_allocNormal _ [lit 0, lit 0, lit 1] w4
+  have e4 := observe_allocVerts _ (M.rot ((polygonInertiaHead M s).get (polygonInertiaHead M s).fNormal)
+    ((polygonInertiaHead M s).get (polygonInertiaHead M s).fVerts)) wh
+  rw [e4, oh] at e
+  have hn : (polygonInertiaHead M s).get (polygonInertiaHead M s).fNormal =
+      (Spec.moved M s.cls (observe s) V3.zero).normal := by rw [← oh]; rfl
+  have hv : (polygonInertiaHead M s).get (polygonInertiaHead M s).fVerts =
+      (Spec.moved M s.cls (observe s) V3.zero).verts := by rw [← oh]; rfl
+  rw [hn, hv] at e
+  unfold polygonInertiaMid
+  rw [hn, hv]
+  exact e
+
+theorem moved_normal (M : Meas α) (cls : Cls) (o : Obs α) (v : V3 α) : (Spec.moved M cls o v).normal = o.normal := by
+  unfold Spec.moved; cases cls.kind <;> rfl
+
+/-- **the heap program of `Polygon.inertia_tensor` returns the value semantics' answer** -/
+theorem polygonInertia_answer (M : Meas α) (s : St α) (hw : Spec.WF s) :
+    (polygonInertia M s).1.get (polygonInertia M s).2 = Spec.polygonInertia M s.cls (observe s) := by
+  obtain ⟨_, oh⟩ := observe_polygonInertiaHead M s hw
+  have hn : (polygonInertiaHead M s).get (polygonInertiaHead M s).fNormal =
+      (Spec.moved M s.cls (observe s) V3.zero).normal := by rw [← oh]; rfl
+  rw [polygonInertia_result M s hw, observe_polygonInertiaMid M s hw, hn, moved_normal, ← centroidOf_observe]
+  rfl
+
+theorem observe_polyhedronInertia (M : Meas α) (s : St α) (hw : Spec.WF s) :
+    observe (polyhedronInertia M s).1 = observe s ∧
+    (polyhedronInertia M s).1.get (polyhedronInertia M s).2 = Spec.polyhedronInertia M s.cls (observe s) := by
+  have w1 := WF.alloc hw (M.gather (s.get s.fVerts))
+  have o1 := observe_alloc s (M.gather (s.get s.fVerts)) hw
+  have ne : ∀ i, i < s.next → i ≠ s.next := fun i hi => Nat.ne_of_lt hi
+  have o2 : observe ((s.alloc (M.gather (s.get s.fVerts))).write s.next
+      (shiftRows (V3.zero - pubCentroid M (s.alloc (M.gather (s.get s.fVerts))))
+        ((s.alloc (M.gather (s.get s.fVerts))).get s.next))) = observe s := by
+    rw [observe_write (s.alloc (M.gather (s.get s.fVerts))) s.next _ (ne _ hw.verts) (ne _ hw.normal.1) (ne _ hw.cen.1) (ne _ hw.eqs.1) (ne _ hw.seqs.1), o1]
+  have w2 : Spec.WF ((s.alloc (M.gather (s.get s.fVerts))).write s.next
+      (shiftRows (V3.zero - pubCentroid M (s.alloc (M.gather (s.get s.fVerts))))
+        ((s.alloc (M.gather (s.get s.fVerts))).get s.next))) :=
+    WF.of_frame hw ((Frame.alloc s _).writeSince s.next _ (Nat.le_refl _))
+  have pc : pubCentroid M (s.alloc (M.gather (s.get s.fVerts))) = pubCentroid M s := by
+    rw [← centroidOf_observe, ← centroidOf_observe, o1]; rfl
+  constructor
+  · show observe (St.alloc _ _) = _
+    rw [observe_alloc _ _ w2, o2]
+  · unfold polyhedronInertia
+    simp only [St.get_alloc_self] at o2 ⊢
+    rw [o2, St.get_write_self, pc, ← centroidOf_observe]
+    rfl
+
+end inertia
+
+/-! ## there and back -/
+
+/-- `Spec.Coherent` read off the observables -/
+structure CohObs (M : Meas ℝ) (cls : Cls) (o : Obs ℝ) : Prop where
+  verts : cls.kind ≠ .curved → 3 ≤ o.verts.length
+  eqs : cls.kind = .poly ∨ cls.kind = .convex → o.eqs = M.eqs o.verts
+  seqs : cls.kind = .convex → o.seqs = M.seqs o.verts
+  volume : cls.kind = .convex → o.volume = M.vol o.verts
+  cen : cls.kind = .convex → o.cen = v3l (M.cenV o.volume o.verts)
+  centre : cls.kind = .curved → ∃ c : V3 ℝ, o.cen = v3l c
+
+theorem CohObs.of_coherent {M : Meas ℝ} {s : St ℝ} (h : Spec.Coherent M s) : CohObs M s.cls (observe s) :=
+  ⟨h.verts, h.eqs, h.seqs, h.volume, h.cen, h.centre⟩
+
+/-- **translate to the origin, translate back to the old centroid: nothing changed** (over ℝ, for a
+centroid getter that commutes with translations and coherent caches) -/
+theorem moved_back (M : Meas ℝ) (hL : Spec.Lawful M) (cls : Cls) (o : Obs ℝ) (hc : CohObs M cls o) :
+    Spec.moved M cls (Spec.moved M cls o V3.zero) (Spec.centroidOf M cls o) = o := by
+  cases hk : cls.kind with
+  | curved =>
+    obtain ⟨c, hcen⟩ := hc.centre hk
+    simp only [Spec.moved, Spec.centroidOf, hk, hcen, l3v_v3l]
+    cases o; simp_all
+  | planar =>
+    have hlen := hc.verts (by simp [hk])
+    simp only [Spec.moved, Spec.centroidOf, hk]
+    rw [hL.cen_shift _ _ _ hlen, shiftRows_cancel] <;> simp
+  | poly =>
+    have hlen := hc.verts (by simp [hk])
+    have he := hc.eqs (Or.inl hk)
+    simp only [Spec.moved, Spec.centroidOf, hk]
+    rw [hL.cen_shift _ _ _ hlen, shiftRows_cancel _ _ _ (by simp) (by simp) (by simp), ← he]
+  | convex =>
+    have hlen := hc.verts (by simp [hk])
+    have he := hc.eqs (Or.inr hk)
+    have hs := hc.seqs hk
+    have hv := hc.volume hk
+    have hcn := hc.cen hk
+    simp only [Spec.moved, Spec.centroidOf, hk, l3v_v3l]
+    have e1 : M.cenV o.volume (shiftRows (V3.zero - l3v o.cen) o.verts) = l3v o.cen + (V3.zero - l3v o.cen) := by
+      rw [hv, hL.cenV_shift _ _ hlen, ← hv, hcn, l3v_v3l]
+    rw [e1, shiftRows_cancel _ _ _ (by simp) (by simp) (by simp), hL.vol_shift, ← hv, ← he, ← hs, ← hcn]
 
 end C16
